@@ -59,59 +59,156 @@ PushBlobEffect(op) ==
 ManPutOp(r, ref, c, ct, lk, dp) ==
   [op |-> "ManPut", repo |-> r, ref |-> ref, ctype |-> ct, ctvar |-> "", body |-> c, lenKnown |-> lk, dparam |-> dp]
 
-\* operation families ---------------------------------------------------------
-OpsPushBlob == {PushBlobOp(r, d, w) : r \in GR, d \in {x \in Digs : IsBlobC(CidOf(x)) /\ CidOf(x) # "nx"},
-                                      w \in {"mono", "postput", "chunked", "stream"}}
+ManDigs == {x \in Digs : IsMan(x)}
+BlobDigs == {x \in Digs : IsBlobC(CidOf(x)) /\ CidOf(x) # "nx"}
+AllRefs == {TagRef(t) : t \in Tags} \cup {DigRef(d) : d \in ManDigs}
+NoChunk == [c |-> "", p |-> ""]
 
-\* blobs needed by some manifest not yet pushable: pushed with priority so that manifests become acceptable
+\* operation families (state dependent sets of operation records) ---------------
+\* complete blob uploads, all four protocols
+OpsPushBlob == {PushBlobOp(r, d, w) : r \in GR, d \in BlobDigs, w \in {"mono", "postput", "chunked", "stream"}}
+FPushBlob == {o \in OpsPushBlob : o.dig \notin blob[o.repo] \/ o.which = "mono"}
+
+\* manifest pushes that the specification accepts (references present), by tag / digest / ?digest=, known or unknown length
 OpsManPutGood ==
-  UNION { {ManPutOp(r, ref, c, ct, TRUE, "") :
-             r \in GR, ct \in {"", M(c).mt},
+  UNION { {ManPutOp(r, ref, c, ct, lk, "") :
+             r \in GR, ct \in {"", M(c).mt}, lk \in BOOLEAN,
              ref \in {TagRef(t) : t \in Tags} \cup {DigRef(d) : d \in DigsOfC(c)}} : c \in ManCids }
+  \cup UNION { {ManPutOp(r, TagRef(t), c, M(c).mt, TRUE, d) : r \in GR, t \in Tags, d \in DigsOfC(c)} : c \in ManCids }
+FManPut == {o \in OpsManPutGood : G1(o.repo, o.body) /\ Refs(o.body) \subseteq blob[o.repo]}
 
-OpsManGet == {[op |-> "ManGet", repo |-> r, ref |-> ref, accept |-> a, method |-> m, range |-> ""] :
-                 r \in GR, ref \in {TagRef(t) : t \in Tags} \cup {DigRef(d) : d \in {x \in Digs : IsMan(x)}},
-                 a \in {"all"}, m \in {"GET", "HEAD"}}
+\* manifest pushes that must be refused: every class of C04
+BadBodies == {"junk", "empty"} \cup {"trunc:" \o c : c \in ManCids} \cup {c \in BlobCids : LenOfC(c) > 0}
+OtherKindMT(c) == IF M(c).kind = "image" THEN {"oci.index", "docker.index"} ELSE {"oci.image", "docker.image"}
+OpsManPutBad ==
+  \* unsupported / inconsistent media type
+  UNION { {ManPutOp(r, TagRef(t), c, ct, TRUE, "") : r \in GR, t \in Tags, ct \in {"bad"} \cup OtherKindMT(c)} : c \in ManCids }
+  \* bodies that are no manifest
+  \cup {ManPutOp(r, TagRef(t), b, ct, TRUE, "") : r \in GR, t \in Tags, b \in BadBodies, ct \in {"", "oci.image", "oci.index"}}
+  \* reference is a digest of something else / malformed; ?digest= of something else
+  \cup UNION { {ManPutOp(r, DigRef(d), c, M(c).mt, TRUE, "") : r \in GR, d \in Digs \ DigsOfC(c)} : c \in ManCids }
+  \cup UNION { {ManPutOp(r, [k |-> "raw", v |-> v], c, M(c).mt, TRUE, "") :
+                  r \in GR, v \in {"sha256:abcd", "-leading", "md5:d41d8cd98f00b204e9800998ecf8427e"}} : c \in ManCids }
+  \cup UNION { {ManPutOp(r, TagRef(t), c, M(c).mt, TRUE, d) : r \in GR, t \in Tags, d \in Digs \ DigsOfC(c)} : c \in ManCids }
+\* ... and pushes whose references are not (all) present in this repository
+FManPutBad == {o \in OpsManPutBad : (IsManC(o.body) /\ o.ctype = M(o.body).mt) => TRUE}
+FManPutMissing == {o \in OpsManPutGood : ~(Refs(o.body) \subseteq blob[o.repo])}
 
-OpsManDel == {[op |-> "ManDel", repo |-> r, ref |-> ref] :
-                 r \in GR, ref \in {TagRef(t) : t \in Tags} \cup {DigRef(d) : d \in {x \in Digs : IsMan(x)}}}
+OpsManGet == {[op |-> "ManGet", repo |-> r, ref |-> ref, accept |-> a, method |-> m, range |-> rg] :
+                 r \in GR, ref \in AllRefs, a \in {"all", "comma", "commarev"}, m \in {"GET", "HEAD"},
+                 rg \in {"", "pre", "mid", "suf"}}
+FManGet == {o \in OpsManGet : Resolve(o.repo, o.ref) # "" /\ (o.method = "HEAD" => o.range = "")}
+
+OpsManDel == {[op |-> "ManDel", repo |-> r, ref |-> ref] : r \in GR, ref \in AllRefs}
+FManDel == {o \in OpsManDel : Resolve(o.repo, o.ref) # "" /\ (o.ref.k = "dig" => G2(o.repo, o.ref.v))
+                              /\ (("tag-delete-drops-referrer" \in KnownOpen /\ o.ref.k = "tag")
+                                    => SubjectOf(Resolve(o.repo, o.ref)) = "")}
+FManDelMiss == {o \in OpsManDel : Resolve(o.repo, o.ref) = ""}
 
 OpsBlobGet == {[op |-> "BlobGet", repo |-> r, dig |-> d, method |-> m, range |-> rg] :
-                 r \in GR, d \in Digs, m \in {"GET"}, rg \in {"", "pre", "mid", "suf", "open", "unsat"}}
+                 r \in GR, d \in Digs, m \in {"GET", "HEAD"}, rg \in {"", "pre", "mid", "suf", "open", "unsat"}}
+FBlobGet == {o \in OpsBlobGet : (o.dig \in blob[o.repo] \/ o.range = "") /\ (o.method = "HEAD" => o.range = "")}
 
 OpsBlobDel == {[op |-> "BlobDel", repo |-> r, dig |-> d] : r \in GR, d \in Digs}
+FBlobDel == {o \in OpsBlobDel : o.dig \in blob[o.repo] /\ G3(o.repo, o.dig)}
 
 OpsRestart == {[op |-> "Restart"]}
 
-\* which candidate operations are worth generating in the current state
-Useful(op) ==
-  CASE op.op = "PushBlob" -> op.dig \notin blob[op.repo] \/ op.which = "mono"
-    [] op.op = "ManPut"   -> /\ G1(op.repo, op.body)
-                             /\ Refs(op.body) \subseteq blob[op.repo]
-    [] op.op = "ManDel"   -> /\ Resolve(op.repo, op.ref) # ""
-                             /\ (op.ref.k = "dig" => G2(op.repo, op.ref.v))
-    [] op.op = "ManGet"   -> Resolve(op.repo, op.ref) # ""
-    [] op.op = "BlobGet"  -> op.dig \in blob[op.repo] \/ op.range = ""
-    [] op.op = "BlobDel"  -> op.dig \in blob[op.repo] /\ G3(op.repo, op.dig)
-    [] OTHER -> TRUE
+\* tag listing: n absent / positive / the classes the property leaves open; last absent / a tag / between two tags
+NClasses == { [n |-> "", ni |-> 0, nc |-> "none"], [n |-> "1", ni |-> 1, nc |-> "pos"], [n |-> "2", ni |-> 2, nc |-> "pos"],
+              [n |-> "3", ni |-> 3, nc |-> "pos"], [n |-> "100", ni |-> 100, nc |-> "pos"],
+              [n |-> "0", ni |-> 0, nc |-> "open"], [n |-> "-1", ni |-> 0, nc |-> "open"], [n |-> "x", ni |-> 0, nc |-> "open"],
+              [n |-> "99999999999999999999", ni |-> 0, nc |-> "open"] }
+OpsTagsList == {[op |-> "TagsList", repo |-> r, n |-> c.n, ni |-> c.ni, nc |-> c.nc, last |-> la, method |-> "GET"] :
+                  r \in GR, c \in NClasses, la \in 0..(2 * Len(TagSeq) + 1)}
+
+\* upload sessions ---------------------------------------------------------------
+OpenH == {h \in DOMAIN sess : sess[h].open}
+GoneH == {h \in DOMAIN sess : ~sess[h].open}
+\* the content an open session is receiving ("" if nothing yet) and the next part in order
+SessC(h) == LET ne == SelectSeq(sess[h].parts, LAMBDA x : x[2] # "e") IN IF ne = <<>> THEN "" ELSE ne[1][1]
+NextPart(h) == LET ne == SelectSeq(sess[h].parts, LAMBDA x : x[2] # "e")
+               IN IF ne = <<>> THEN "p1"
+                  ELSE LET lastp == ne[Len(ne)][2] IN
+                       IF lastp = "p1" THEN "p2" ELSE IF lastp = "p2" THEN "p3" ELSE "done"
+UpPostOp(r, d, a, mnt, frm, ch) == [op |-> "UpPost", repo |-> r, dig |-> d, alg |-> a, mount |-> mnt, from |-> frm, chunk |-> ch]
+FUpPost ==
+  {UpPostOp(r, "", a, "", "", NoChunk) : r \in GR, a \in {"", "", "sha512", "sha384", "sha256", "md5x"}}
+  \* monolithic, matching and mismatching digest
+  \cup {UpPostOp(r, d, "", "", "", [c |-> c, p |-> "all"]) : r \in GR, d \in BlobDigs, c \in BlobCids}
+  \* cross repository mount: source holds it / does not / is unknown; mount without from
+  \cup {UpPostOp(r, "", "", d, f, NoChunk) : r \in GR, d \in BlobDigs, f \in GR \cup {"r9", ""}}
+FUpPatchOk ==
+  UNION { {[op |-> "UpPatch", repo |-> sess[h].repo, sess |-> h, cr |-> cr, st |-> "ok", chunk |-> ch] :
+             cr \in {"none", "ok"},
+             ch \in IF SessC(h) = "" THEN {[c |-> c, p |-> p] : c \in BlobCids, p \in {"all", "p1", "e"}}
+                    ELSE IF NextPart(h) \in {"p2", "p3"} THEN {[c |-> SessC(h), p |-> NextPart(h)], [c |-> SessC(h), p |-> "e"]}
+                    ELSE {[c |-> SessC(h), p |-> "e"]}} : h \in OpenH }
+\* completing PUT with the digest of what was sent (any algorithm of the universe), last part or nothing more
+FUpPutOk ==
+  UNION { {[op |-> "UpPut", repo |-> sess[h].repo, sess |-> h, cr |-> cr, st |-> "ok", dig |-> d, chunk |-> ch] :
+             cr \in {"none", "ok"},
+             d \in IF SessC(h) = "" THEN BlobDigs ELSE DigsOfC(SessC(h)),
+             ch \in IF SessC(h) = "" THEN {[c |-> c, p |-> "all"] : c \in BlobCids}
+                    ELSE IF NextPart(h) = "p3" THEN {[c |-> SessC(h), p |-> "p3"]}
+                    ELSE IF NextPart(h) = "done" THEN {[c |-> SessC(h), p |-> "e"]}
+                    ELSE {}} : h \in OpenH }
+FUpPutOkMatch == {o \in FUpPutOk : SessC(o.sess) # "" \/ CidOf(o.dig) = o.chunk.c}
+\* everything that must be refused: stale/future/malformed offsets and tokens, other repository, finished sessions,
+\* unknown ids, wrong digest, parts out of order
+BadCrSt == {<<"stale", "ok">>, <<"future", "ok">>, <<"bad", "ok">>, <<"ok", "stale">>, <<"none", "future">>,
+            <<"none", "b64">>, <<"none", "json">>, <<"none", "none">>}
+FSessBad ==
+  UNION { {[op |-> o, repo |-> sess[h].repo, sess |-> h, cr |-> x[1], st |-> x[2], dig |-> d, chunk |-> [c |-> c, p |-> "all"]] :
+             o \in {"UpPatch", "UpPut"}, x \in BadCrSt, d \in BlobDigs, c \in BlobCids} : h \in OpenH }
+  \cup UNION { {[op |-> o, repo |-> r, sess |-> h, cr |-> "none", st |-> "ok", dig |-> d, chunk |-> [c |-> CidOf(d), p |-> "all"]] :
+             o \in {"UpPatch", "UpPut", "UpGet", "UpDel"}, r \in GR \ {sess[h].repo}, d \in BlobDigs} : h \in OpenH }
+  \cup {[op |-> o, repo |-> r, sess |-> h, cr |-> "none", st |-> "ok", dig |-> d, chunk |-> [c |-> CidOf(d), p |-> "all"]] :
+             o \in {"UpPatch", "UpPut", "UpGet", "UpDel"}, r \in GR, h \in GoneH \cup {"s99"}, d \in BlobDigs}
+  \* wrong digest for the data / malformed digest / out of order parts
+  \cup UNION { {[op |-> "UpPut", repo |-> sess[h].repo, sess |-> h, cr |-> "none", st |-> "ok", dig |-> d, chunk |-> ch] :
+             d \in BlobDigs \cup {"bad:short", "bad:alg", "bad:empty"}, ch \in {[c |-> c, p |-> p] : c \in BlobCids, p \in {"all", "p2", "p3"}}} : h \in OpenH }
+FSessBadReal == {o \in FSessBad : o.op # "UpPut" \/ ~(SessUsable(o.repo, o.sess) /\ InOrder(o.cr, o.st) /\ WellFormed(o.dig)
+                                     /\ DataIs(Append(sess[o.sess].parts, <<o.chunk.c, o.chunk.p>>), o.dig))}
+FUpGet == {[op |-> "UpGet", repo |-> sess[h].repo, sess |-> h] : h \in OpenH}
+FUpDel == {[op |-> "UpDel", repo |-> sess[h].repo, sess |-> h] : h \in OpenH}
 
 \* families and their weights (a family is drawn with probability proportional to its number of occurrences)
 FamOps(f) ==
-  CASE f = "pushblob" -> OpsPushBlob
-    [] f = "manput"   -> OpsManPutGood
-    [] f = "mandel"   -> OpsManDel
-    [] f = "blobget"  -> OpsBlobGet
-    [] f = "manget"   -> OpsManGet
-    [] f = "blobdel"  -> OpsBlobDel
+  CASE f = "pushblob" -> FPushBlob
+    [] f = "manput"   -> FManPut
+    [] f = "manputbad" -> FManPutBad
+    [] f = "manputmiss" -> FManPutMissing
+    [] f = "mandel"   -> FManDel
+    [] f = "mandelmiss" -> FManDelMiss
+    [] f = "blobget"  -> FBlobGet
+    [] f = "manget"   -> FManGet
+    [] f = "blobdel"  -> FBlobDel
     [] f = "restart"  -> OpsRestart
+    [] f = "tagslist" -> OpsTagsList
+    [] f = "uppost"   -> FUpPost
+    [] f = "uppatch"  -> FUpPatchOk
+    [] f = "upput"    -> FUpPutOkMatch
+    [] f = "sessbad"  -> FSessBadReal
+    [] f = "upget"    -> FUpGet
+    [] f = "updel"    -> FUpDel
     [] OTHER -> {}
 
 Weights ==
   CASE Profile = "push" -> <<"pushblob", "pushblob", "pushblob", "manput", "manput", "manput", "manput", "mandel",
                              "blobget", "manget", "blobdel", "restart">>
+    [] Profile = "tags" -> <<"pushblob", "pushblob", "manput", "manput", "manput", "manput", "mandel", "mandel",
+                             "tagslist", "tagslist", "manget", "restart", "mandelmiss">>
+    [] Profile = "manput" -> <<"pushblob", "pushblob", "manput", "manput", "manputbad", "manputbad", "manputbad",
+                               "manputmiss", "manputmiss", "mandel", "blobdel">>
+    [] Profile = "refs" -> <<"pushblob", "pushblob", "manput", "manput", "manput", "manput", "mandel", "mandel", "restart">>
+    [] Profile = "sess" -> <<"uppost", "uppost", "uppatch", "uppatch", "uppatch", "upput", "upput", "sessbad", "sessbad",
+                             "upget", "updel", "restart", "blobget">>
+    [] Profile = "upload" -> <<"pushblob", "uppost", "uppost", "uppatch", "uppatch", "upput", "upput", "sessbad",
+                               "manput", "manput", "manputbad", "blobget", "manget", "blobdel">>
     [] OTHER -> <<"pushblob", "manput", "mandel">>
 
-Cands(f) == {o \in FamOps(f) : Useful(o)}
+Cands(f) == FamOps(f)
 
 GenDo(op) == IF op.op = "PushBlob" THEN PushBlobEffect(op) ELSE Do(op)
 
@@ -124,11 +221,10 @@ MCInit ==
 \* RandomElement makes the walk a function of the simulation seed.
 MCNext ==
   /\ Len(hist) < Depth
-  /\ LET ok == {i \in DOMAIN Weights : Cands(Weights[i]) # {}} IN
-     /\ ok # {}
-     /\ \E i \in {RandomElement(ok)} :            \* bound once (a LET definition would be re-evaluated at every use)
-          \E op \in {RandomElement(Cands(Weights[i]))} :
-             GenDo(op) /\ hist' = Append(hist, op)
+  /\ \E i \in {RandomElement(DOMAIN Weights)} :          \* bound once (a LET definition would be re-evaluated at every use)
+       \E C \in {Cands(Weights[i])} :
+         \E op \in {IF C = {} THEN RandomElement(Cands(Weights[1])) ELSE RandomElement(C)} :   \* the first family is never empty
+            GenDo(op) /\ hist' = Append(hist, op)
 
 MCSpec == MCInit /\ [][MCNext]_mvars
 
